@@ -158,6 +158,9 @@ TagsInv == TagsAgree
     for s in rq["samples"][:1]:
         ctx.sample({"marshalled_yaml": s})
     ctx.sample({"parse_case": cases[0]})
+    # parsing in histories of the whole interface (Hist.tla): what a word parses to does not depend on what was parsed or compiled before
+    import histfam
+    histfam.run(ctx)
     ctx.cov["rule"] = ("parsers: every documented action/operation name under all case masks (names of up to %d letters; a systematic family for longer ones), near misses "
                        "(prefix, suffix, blanks, one edit, empty, doubled) and foreign words, expectations computed by Text.tla; policies: every default x group action, every "
                        "operation x argument index 0-5 x 8 boundary operands up to 2^64-1, multi-condition / multi-entry / multi-group shapes, each as documented YAML (independent "
